@@ -160,7 +160,9 @@ def run(seed, tier, lean) -> Result:
         prev = (spec, quads, lg)
         if same_ends: res.bump('same role name on both ends (lookups only)')
         if not probs and not same_ends:
-            try: probs, inst = overapprox_probs(spec, lg, r)
+            try:
+                from ..common import time_limit
+                with time_limit(30): probs, inst = overapprox_probs(spec, lg, r)
             except Exception as e: res.notes.append('attack graph generation failed in C15: ' + type(e).__name__)
         depth2 = any(len(anc(spec, a['name'])) >= 3 for a in spec['assets'])
         if depth2 and any(any(by_sub for by_sub in spec['assets'] if by_sub['superAsset'] in (d['leftAsset'], d['rightAsset'])) for d in spec['associations']):
